@@ -36,6 +36,7 @@ const (
 	opCreate opKind = iota
 	opWrite1
 	opWrite2
+	opWrite3 // only inside the macro operation WC(k,3)
 	opCommit
 	opDiscardW
 	opOpen
@@ -43,7 +44,7 @@ const (
 	opDiscardE
 )
 
-var kindName = [...]string{"Create", "Write1", "Write2", "Commit", "DiscardWriter", "Open", "Stat", "DiscardEntry"}
+var kindName = [...]string{"Create", "Write1", "Write2", "Write3", "Commit", "DiscardWriter", "Open", "Stat", "DiscardEntry"}
 
 type op struct {
 	kind opKind
@@ -90,6 +91,8 @@ type entry struct {
 	// suspect is set when the Commit that made the entry returned nil although one of
 	// its own file operations failed; it names the cause in the signature.
 	suspect string
+	// gen counts the successful commits on this key so far.
+	gen int
 }
 
 type writerIface interface {
@@ -194,6 +197,17 @@ type runner struct {
 	cfg  int
 	keys [2]key
 	vol  *vfs.FS // fileStore only
+	// re-commit (macro) histories: the macro form of the history being run, and
+	// whether the single-fault sweep is skipped for it
+	macro   string
+	noSweep bool
+}
+
+func (rn *runner) histKey() string {
+	if rn.macro != "" {
+		return rn.kind + "/recommit"
+	}
+	return rn.kind
 }
 
 func (rn *runner) newStore() exec.Store {
@@ -232,11 +246,14 @@ func errClass(err error) string {
 // chunk returns the bytes written by chunk c of history position i: all bytes of a
 // history are distinct and non-zero, whatever fails.
 func chunk(i, c int) []byte {
-	base := byte(1 + i*5)
-	if c == 0 {
+	base := byte(1 + i*6)
+	switch c {
+	case 0:
 		return []byte{base, base + 1, base + 2}
+	case 1:
+		return []byte{base + 3, base + 4}
 	}
-	return []byte{base + 3, base + 4}
+	return []byte{base + 5}
 }
 
 // bs renders bytes readably in evidence ("[6 7 8]").
@@ -301,6 +318,9 @@ func (rn *runner) run(h []op, label string, mode vfs.Mode) *runResult {
 		if label != "" {
 			d["fault"] = mode.String() + " at " + label
 		}
+		if rn.macro != "" {
+			d["recommit_history"] = rn.macro
+		}
 		for k, v := range extra {
 			d[k] = v
 		}
@@ -321,6 +341,9 @@ func (rn *runner) run(h []op, label string, mode vfs.Mode) *runResult {
 			}
 			if faulty {
 				return "failed-" + fsopsOf(failed) + "-during-Open"
+			}
+			if e.gen > 1 {
+				return dflt + "/key-committed-more-than-once"
 			}
 			return dflt
 		}
@@ -371,6 +394,9 @@ func (rn *runner) run(h []op, label string, mode vfs.Mode) *runResult {
 			}
 			if faulty {
 				return "failed-" + fsopsOf(failed) + "-during-Stat"
+			}
+			if e.gen > 1 {
+				return dflt + "/key-committed-more-than-once"
 			}
 			return dflt
 		}
@@ -424,17 +450,14 @@ func (rn *runner) run(h []op, label string, mode vfs.Mode) *runResult {
 			}
 			m.writers = append(m.writers, mw)
 			outcome("Create:" + entName[m.ent[o.k].st] + ":" + errClass(err))
-		case opWrite1, opWrite2:
+		case opWrite1, opWrite2, opWrite3:
 			mw := m.writers[o.w]
 			if !mw.exists || !mw.open {
 				res.skipped++
 				outcome(kindName[o.kind] + ":skipped")
 				break
 			}
-			nch := 1
-			if o.kind == opWrite2 {
-				nch = 2
-			}
+			nch := 1 + int(o.kind-opWrite1)
 			oc := "ok"
 			for c := 0; c < nch; c++ {
 				data := chunk(i, c)
@@ -462,10 +485,11 @@ func (rn *runner) run(h []op, label string, mode vfs.Mode) *runResult {
 			e := &m.ent[mw.k]
 			prev := entName[e.st]
 			if err == nil {
+				gen := e.gen + 1
 				if mw.tainted {
-					*e = entry{st: wild}
+					*e = entry{st: wild, gen: gen}
 				} else {
-					*e = entry{st: present, data: mw.buf, n: n}
+					*e = entry{st: present, data: mw.buf, n: n, gen: gen}
 					if len(failed) > 0 {
 						e.suspect = "Commit-returned-nil-despite-failed-" + fsopsOf(failed)
 					}
@@ -517,7 +541,7 @@ func (rn *runner) run(h []op, label string, mode vfs.Mode) *runResult {
 			e := &m.ent[o.k]
 			oc := "DiscardEntry:" + entName[e.st] + ":" + errClass(err)
 			if err == nil {
-				*e = entry{st: absent}
+				*e = entry{st: absent, gen: e.gen}
 			} else if e.st == present {
 				e.st = maybe
 			}
@@ -558,6 +582,7 @@ type storeStats struct {
 	runs, faultRuns, faultsFired int64
 	skipped, taintedNoFault      int64
 	violRuns                     int64
+	recommit                     []string
 	histories                    map[string]int64
 	byMode                       map[string]int64
 	outcomes, states             *ev.Counter
@@ -643,7 +668,7 @@ func (ex *explorer) finish(vol *vfs.FS) {
 func (ex *explorer) evaluate(rn *runner, h []op) *model {
 	base := rn.run(h, "", 0)
 	atomic.AddInt64(&ex.st.runs, 1)
-	atomic.AddInt64(ex.hist[rn.kind], 1)
+	atomic.AddInt64(ex.hist[rn.histKey()], 1)
 	atomic.AddInt64(&ex.st.skipped, int64(base.skipped))
 	atomic.AddInt64(&ex.st.taintedNoFault, int64(base.tainted))
 	if len(h) > 0 {
@@ -653,7 +678,7 @@ func (ex *explorer) evaluate(rn *runner, h []op) *model {
 	if base.viol != nil {
 		ex.report(rn, h, "", 0, base.viol)
 	}
-	if rn.kind != "fileStore" {
+	if rn.kind != "fileStore" || rn.noSweep {
 		return &base.m
 	}
 	for ci, label := range base.log {
@@ -727,7 +752,7 @@ func newStoreStats() *storeStats {
 func runStores(r *ev.Run, depth, workers int) *storeStats {
 	st := newStoreStats()
 	ex := &explorer{r: r, depth: depth, st: st, vols: make(chan *vfs.FS, workers), cands: map[string]*storeCand{},
-		hist: map[string]*int64{"fileStore": new(int64), "memoryStore": new(int64)},
+		hist: map[string]*int64{"fileStore": new(int64), "memoryStore": new(int64), "fileStore/recommit": new(int64), "memoryStore/recommit": new(int64)},
 		mode: map[string]*int64{"fail": new(int64), "failpartial": new(int64), "crash": new(int64)}}
 	for i := 0; i < workers; i++ {
 		ex.vols <- vfs.New(fmt.Sprintf("c15w%d", i))
@@ -740,6 +765,7 @@ func runStores(r *ev.Run, depth, workers int) *storeStats {
 			ex.wg.Wait()
 		}
 	}
+	ex.runRecommit(workers)
 	ex.finish(root)
 	for k, p := range ex.hist {
 		st.histories[k] = *p
@@ -754,4 +780,117 @@ func runStores(r *ev.Run, depth, workers int) *storeStats {
 	r.Sample(map[string]interface{}{"store": "fileStore", "history": histString(ex1), "vfs_log_of_fault_free_run": b.log,
 		"meaning": "each label before the audit is failed in turn (fail, failpartial for Write, crash); outcomes judged against the map model", "op_outcomes": b.outcomes})
 	return st
+}
+
+// ---- re-commit histories: macro operations ----------------------------------------
+//
+// WC(k,c) = Create(k); Write of c chunks (3, 5 or 6 bytes); Commit. Histories over
+// {WC(k,1), WC(k,2), WC(k,3), Open(k,0), Open(k,1), Stat(k), DiscardEntry(k)} reach every
+// order of commit / open / discard / commit-again-with-another-size within the depth,
+// which the primitive alphabet only reaches at 3 ops per commit.
+
+type macro struct {
+	kind opKind // opCommit stands for WC
+	k    int
+	n    int // chunks (WC) or offset (Open)
+}
+
+func (m macro) String() string {
+	switch m.kind {
+	case opCommit:
+		return fmt.Sprintf("WC(k%d,%d)", m.k, m.n)
+	case opOpen:
+		return fmt.Sprintf("Open(k%d,off=%d)", m.k, m.n)
+	}
+	return fmt.Sprintf("%s(k%d)", kindName[m.kind], m.k)
+}
+
+func macroAlphabet(nkeys int) []macro {
+	var a []macro
+	for k := 0; k < nkeys; k++ {
+		a = append(a, macro{opCommit, k, 1}, macro{opCommit, k, 2}, macro{opCommit, k, 3},
+			macro{opOpen, k, 0}, macro{opOpen, k, 1}, macro{opStat, k, 0}, macro{opDiscardE, k, 0})
+	}
+	return a
+}
+
+func expandMacros(ms []macro) ([]op, string) {
+	var h []op
+	names := make([]string, len(ms))
+	nw := 0
+	for i, m := range ms {
+		names[i] = m.String()
+		switch m.kind {
+		case opCommit:
+			h = append(h, op{kind: opCreate, k: m.k}, op{kind: opWrite1 + opKind(m.n-1), w: nw}, op{kind: opCommit, w: nw})
+			nw++
+		case opOpen:
+			h = append(h, op{kind: opOpen, k: m.k, off: int64(m.n)})
+		default:
+			h = append(h, op{kind: m.kind, k: m.k})
+		}
+	}
+	return h, strings.Join(names, " ")
+}
+
+type recommitPlan struct {
+	kind    string
+	cfg     int
+	nkeys   int
+	depth   int
+	noSweep bool
+}
+
+func (ex *explorer) runRecommit(workers int) {
+	thorough := ex.r.Thorough()
+	d1, d2, d2sweep := 5, 5, 3
+	if thorough {
+		d1, d2, d2sweep = 6, 6, 4
+	}
+	plans := []recommitPlan{
+		{"memoryStore", 0, 1, d1, true},
+		{"fileStore", 0, 1, d1, false},
+		{"memoryStore", 0, 2, d2, true},
+		{"fileStore", 0, 2, d2sweep, false},
+		{"fileStore", 0, 2, d2, true},
+	}
+	if thorough {
+		plans = append(plans, recommitPlan{"memoryStore", 1, 2, d2 - 1, true}, recommitPlan{"fileStore", 1, 2, d2 - 1, true})
+	}
+	for _, pl := range plans {
+		alpha := macroAlphabet(pl.nkeys)
+		for d := 1; d <= pl.depth; d++ {
+			if !pl.noSweep || pl.kind != "fileStore" {
+				// nothing to skip
+			} else if d <= d2sweep && pl.nkeys == 2 {
+				continue // already run with the sweep
+			}
+			total := 1
+			for i := 0; i < d; i++ {
+				total *= len(alpha)
+			}
+			ev.Parallel(total, workers, func(i int) {
+				if ex.stop.Load() {
+					return
+				}
+				if i%256 == 0 && ex.r.OverBudget(budget(ex.r)) {
+					if !ex.stop.Swap(true) {
+						ex.r.NotExhaustive(fmt.Sprintf("re-commit histories: soft time budget hit (%s, %d keys, depth %d)", pl.kind, pl.nkeys, d))
+					}
+					return
+				}
+				ms := make([]macro, d)
+				for j, x := d-1, i; j >= 0; j-- {
+					ms[j] = alpha[x%len(alpha)]
+					x /= len(alpha)
+				}
+				h, name := expandMacros(ms)
+				vol := <-ex.vols
+				defer func() { ex.vols <- vol }()
+				rn := &runner{kind: pl.kind, cfg: pl.cfg, keys: keyConfigs[pl.cfg], vol: vol, macro: name, noSweep: pl.noSweep}
+				ex.evaluate(rn, h)
+			})
+			ex.st.recommit = append(ex.st.recommit, fmt.Sprintf("%s keys=%d cfg=%d depth=%d sweep=%v: %d histories", pl.kind, pl.nkeys, pl.cfg, d, !pl.noSweep && pl.kind == "fileStore", total))
+		}
+	}
 }
